@@ -299,6 +299,16 @@ func (c *PathCtx) valueDependsOn(v Value, t types.Type, secret *Term) (string, b
 			if c.termLeaks(x, secret) {
 				return path, true
 			}
+			// the text produced by json.Marshal is an opaque handle of a snapshot: what the
+			// text shows is the snapshot
+			if x.Const && x.Sort.K == KStr && strings.HasPrefix(x.S, "json#") {
+				var n int
+				if _, err := fmt.Sscanf(x.S, "json#%d", &n); err == nil {
+					if reg, ok := c.side["jsonreg"].(*[]Value); ok && n >= 1 && n <= len(*reg) {
+						return walk((*reg)[n-1], nil, path+".json", depth+1)
+					}
+				}
+			}
 		case Iface:
 			if x.T == nil {
 				return "", false
